@@ -150,6 +150,15 @@ reg("C01", "exploration",
     "property-based testing (Hypothesis) with generator-carried ground truth and three-valued structural oracle",
     "DESIGN.md section 4 C01")
 
+reg("C06", "exploration",
+    "Hypothesis-generated multi-chromosome scenarios (groups, multi-mappers, shared exons, novel isoforms) are run "
+    "twice as separate `python isoquant.py` processes whose configurations differ in --threads, PYTHONHASHSEED, "
+    "--high_memory, --keep_tmp or nothing; every output file must be byte-identical modulo the command-line header.",
+    "Worker completion order is varied only through thread counts and load (not enumerated); one repaired defect "
+    "(hash-order of gene ids) listed as fixed.",
+    "property-based testing (Hypothesis) with differential (metamorphic) oracle over configuration pairs",
+    "DESIGN.md section 4 C06")
+
 NOT_YET = "check not built yet in this session (see DESIGN.md section 6a build order)"
 
 
